@@ -17,6 +17,7 @@ package main
 
 import (
 	"fmt"
+	"runtime/debug"
 	"strconv"
 	"strings"
 
@@ -345,5 +346,7 @@ func run(input string) string {
 
 func main() {
 	logger.SetEnabled(false)
+	// the recursive shuffle allocates O(n^2) short-lived memory per call: collect less often
+	debug.SetGCPercent(2000)
 	h.Main(gen, run)
 }
